@@ -171,15 +171,15 @@ theorem imgM3_den3 (a : Asg) : den imgM3.tbl 3 a = (!a 0 || a 2) := by
   cases a 0 <;> cases a 2 <;> simp
 
 /-- `_image(u, -1, ...)` returns FALSE at once -/
-theorem imageF_right_false (umap vmap : Option (List (Int × Int))) (Q : List Nat) (fa : Bool)
-    (f : Nat) (u : Int) (cache : HashMap (Int × Int) Int) (m : Mgr) :
-    imageF umap vmap Q fa (f+1) u (-1) cache m = (.ok (-1, cache), m) := by
+theorem imageF_right_false (umap vmap : Option (List (Int × Int))) (ubad vbad : List Int) (Q : List Nat)
+    (fa : Bool) (f : Nat) (u : Int) (cache : HashMap (Int × Int) Int) (m : Mgr) :
+    imageF umap vmap ubad vbad Q fa (f+1) u (-1) cache m = (.ok (-1, cache), m) := by
   unfold imageF; simp
 
 /-- the run of `_image` on the non-injective renaming `{a: b, c: b}` (levels `{0: 1, 2: 1}`),
 `u` = TRUE, `v = a ∧ ¬c`, `qvars = {b}`, existential: the code returns a reference of TRUE -/
 theorem imgM3_noninj_run :
-    ∃ r c m', imageF none (some [(0, 1), (2, 1)]) [1] false 10 1 (-3) {} imgM3 =
+    ∃ r c m', imageF none (some [(0, 1), (2, 1)]) [] [] [1] false 10 1 (-3) {} imgM3 =
       (.ok (r, c), m') ∧ ∀ a, den m'.tbl r a = true := by
   have hW := imgM3_inv.wf.toWF
   -- the call `(1, ¬c)`: covered by the specification (one variable in the support)
@@ -207,7 +207,7 @@ theorem imgM3_noninj_run :
     simp [upd]
   obtain ⟨r2, m2, e2, hp2⟩ := ite_spec_off m1 hI1 hoff1 (-1) 1 r1 (mem_neg_one _) (mem_one _) hr1
   refine ⟨r2, c1.insert (1, -3) r2, m2, ?_, ?_⟩
-  · show imageF none (some [(0, 1), (2, 1)]) [1] false (9+1) 1 (-3) {} imgM3 = _
+  · show imageF none (some [(0, 1), (2, 1)]) [] [] [1] false (9+1) 1 (-3) {} imgM3 = _
     unfold imageF
     have hA : ¬ ((1 : Int) = -1 ∨ (-3 : Int) = -1) := by decide
     have hB : ¬ ((-3 : Int) = 1) := by decide
@@ -219,7 +219,7 @@ theorem imgM3_noninj_run :
     have hc1 : topCofactorI imgM3.tbl 1 1 = .ok (1, 1) := by rfl
     have hc2 : topCofactorI imgM3.tbl (-3) (((0 : Nat) : Int) + 1 - 1) = .ok (-1, -2) := by rfl
     have hq : (0 : Int) ≤ 1 ∧ [1].contains (1 : Int).toNat = true := by decide
-    simp only [hA, hB, and_false, if_false, HashMap.getElem?_empty, h1, h2, hi, hz, hc1, hc2,
+    simp only [hA, hB, and_false, if_false, List.contains_nil, Bool.false_eq_true, HashMap.getElem?_empty, h1, h2, hi, hz, hc1, hc2,
       imageF_right_false, e1, hq, and_self, if_true, Bool.false_eq_true, e2]
   · intro a
     rw [hp2.den a, den_neg_one, hr1t a]
